@@ -65,6 +65,35 @@ def map_key_order_rules(ctx, rule, which=('owned', 'borrowed')):
         if k and len(ctx.records) == before:
             sub.ok('no-self-compare', p_, '%d comparison(s), operands mirror each other' % k)
     check_bigint_truncation(sub, P, 'bigint-truncation')
+    structural_equality(sub, 'structural-eq')
     # the recipes of C12 (rank table, big integers by sign / length / digits from the most significant end, tuples, lists, maps)
     from .props import c12
     c12.run(sub)
+
+
+def structural_equality(ctx, rule):
+    """`==` on the term types is structural: derived, or hand-written without going through the order. The decoders use `==`
+    to decide shapes (`tail == Nil`), and the order calls some different terms Equal (documented catch-all arms)."""
+    P = ctx.P
+    for ty in ('erltf::term::OwnedTerm', 'erltf::borrowed::BorrowedTerm'):
+        imps = [i for i in P.F.impls if i['self'].startswith(ty) and (i.get('trait') or '') == 'core::cmp::PartialEq']
+        short = ty.rsplit('::', 1)[1]
+        if not imps:
+            ctx.undecided(rule, short, 'no PartialEq impl found')
+            continue
+        if imps[0].get('derived'):
+            ctx.ok(rule, short, 'PartialEq is derived (variant by variant, field by field)')
+            continue
+        via_order = []
+        for it in imps[0]['items']:
+            for B_ in [P.B(q) for q in P.F.bodies if q.split('::{')[0] == it]:
+                for bb, t in B_.calls():
+                    from .core import callee_names
+                    if any(n.endswith('::cmp') or n.endswith('::partial_cmp') for n in callee_names(t)) and any(ty in str(x) for x in (t.get('aty') or [])):
+                        via_order.append((B_, bb))
+        if via_order:
+            ctx.bad(rule, short, '%s == is defined through the order (cmp() == Equal): every pair the order lumps together (its catch-all arms: an improper list and [], a binary and a bit-string ...) '
+                    'becomes equal, and decoder logic such as `tail == OwnedTerm::Nil` silently changes meaning' % short, ctx.where(via_order[0][0], via_order[0][1]),
+                    key='EQ:%s:eq-through-order' % ty)
+        else:
+            ctx.ok(rule, short, 'hand-written PartialEq that does not go through the order')
